@@ -131,6 +131,26 @@ def _scalar_result_dtype(da, db, a, b):
     return nxt if nxt else "float64"  # uint64 with a signed integer -> float64
 
 
+def _bounds(t, d):
+    """conservative interval of an integer term of dtype d (None: unknown)"""
+    if z3.is_int_value(t):
+        return t.as_long(), t.as_long()
+    r = dtype_range(d) if d else None
+    return r
+
+
+def _fits(f, ta, da, tb, db, rd):
+    """True if f(a, b) provably stays inside dtype rd (interval arithmetic), so no wrap is needed"""
+    ba, bb, rr = _bounds(ta, da), _bounds(tb, db), dtype_range(rd)
+    if ba is None or bb is None or rr is None:
+        return False
+    try:
+        cands = [f(x, y) for x in ba for y in bb]
+    except Exception:
+        return False
+    return min(cands) >= rr[0] and max(cands) <= rr[1]
+
+
 def _scalar_hook(a, b, ta, tb, da, db, f):
     rd = _scalar_result_dtype(da, db, a, b)
     if rd.startswith("float"):
@@ -142,6 +162,8 @@ def _scalar_hook(a, b, ta, tb, da, db, f):
     r = f(ta, tb)
     if z3.is_real(r):
         return SymReal(z3.simplify(r), True, "float64")
+    if _fits(f, ta, da, tb, db, rd):
+        return SymInt(z3.simplify(r), True, rd)
     return SymInt(z3.simplify(wrap_mod(r, rd)), True, rd)
 
 
@@ -317,6 +339,15 @@ def venn_axioms(names, max_atoms=7):
     return out
 
 
+def _is_mask_term(t):
+    """integer term whose value is given by if-then-else over numerals (region-constant)"""
+    if z3.is_int_value(t):
+        return True
+    if z3.is_app(t) and t.decl().kind() == z3.Z3_OP_ITE:
+        return _is_mask_term(t.arg(1)) and _is_mask_term(t.arg(2))
+    return False
+
+
 def _region_constant(t, atoms, bits):
     """value of integer term t on the region given by the atom literals, if it is constant there"""
     s = z3.Solver()
@@ -488,6 +519,8 @@ class VArr:
         if f is None:
             raise Unsupported("in-place array operator")
         r = self._arith(o, f, opname={ast.Add: "+", ast.Sub: "-", ast.Mult: "*"}[op])
+        if self.dtype_name == "bool" and r.dtype_name != "bool":
+            raise PyRaise(PyExc(TypeError, ("Cannot cast ufunc output to dtype('bool') with casting rule 'same_kind'",)))
         cur().event("arr-write", self.buf, self.owner)
         self.term = z3.simplify(_cast_term(r.term, r.dtype_name, self.dtype_name))
         return self
@@ -500,7 +533,16 @@ class VArr:
             return SymInt(card(self.term, self.space), True, "int64")
         if is_int_dtype(self.dtype_name):
             acc = "uint64" if self.dtype_name in UINT_BITS else "int64"
-            return SymInt(vsum(self.term, self.space), True, acc)
+            if _is_mask_term(self.term):
+                return SymInt(vsum(self.term, self.space), True, acc)
+            if self.dtype_name in UINT_BITS:
+                # sum of an unsigned label array: only "non-negative, zero iff all elements are zero" is modelled
+                # (assumption: no overflow of the uint64 accumulator)
+                eng = cur()
+                sm = eng.fresh("labelsum", I_)
+                eng.assume(z3.And(sm >= 0, (sm == 0) == (card(self.term != 0, self.space) == 0)), why="np.sum of an unsigned array")
+                return SymInt(sm, True, acc)
+            raise Unsupported("sum of a signed non-mask array")
         raise Unsupported("sum of float array")
 
     def max(self, *a, **k):
@@ -540,6 +582,78 @@ class VArr:
         if hasattr(k, "crop_of"):
             return k.crop_of(self)
         raise Unsupported(f"array indexing with {k!r}")
+
+
+class TArr:
+    """A 1-D lookup table (np.arange / fancy-index assigned): index term -> value term."""
+
+    def __init__(self, length, fn, dtype):
+        self.length = length  # z3 Int term
+        self.fn = fn
+        self.dtype_name = dtype
+
+    @property
+    def dtype(self):
+        return DType(self.dtype_name)
+
+    def pyvc_setitem(self, k, v):
+        eng = cur()
+        if not (isinstance(k, ParArr) and isinstance(v, ParArr) and k.m is v.m and k.which == "keys" and v.which == "values"):
+            raise Unsupported("table assignment other than T[keys(map)] = values(map)")
+        m = k.m
+        kap = z3.Function(f"tkey!{eng.fresh_n + 1}", I_, I_)
+        hit = z3.Function(f"thit!{eng.fresh_n + 1}", I_, B_)
+        eng.fresh_n += 1
+        q, i = z3.Int(f"tq!{eng.fresh_n}"), z3.Int(f"ti!{eng.fresh_n}")
+        ck = lambda t: _cast_term(t, "int64", k.dtype_name)
+        cv = lambda t: _cast_term(t, "int64", v.dtype_name)
+        inb = z3.ForAll([q], z3.Implies(z3.Select(m.dom, q), z3.And(ck(q) >= 0, ck(q) < self.length)))
+        if not eng.truth(wrap(inb)):
+            raise PyRaise(PyExc(IndexError, ("index out of bounds for table assignment",)))
+        eng.assume(z3.And(
+            z3.ForAll([q], z3.Implies(z3.Select(m.dom, q), hit(ck(q))), patterns=[z3.Select(m.dom, q)]),
+            z3.ForAll([i], z3.Implies(hit(i), z3.And(z3.Select(m.dom, kap(i)), ck(kap(i)) == i)), patterns=[hit(i)])), why="fancy-index assignment")
+        old = self.fn
+        dt = self.dtype_name
+        self.fn = lambda t, old=old: z3.If(hit(t), _cast_term(cv(z3.Select(m.val, kap(t))), v.dtype_name, dt), old(t))
+        self.hit, self.kap = hit, kap
+
+    def pyvc_getitem(self, k):
+        eng = cur()
+        if isinstance(k, VArr):
+            t = k.term
+            v = z3.Const(f"tv!{eng.fresh_n + 1}", Vox)
+            eng.fresh_n += 1
+            inb = z3.ForAll([v], z3.And(k.at(v) >= 0, k.at(v) < self.length))
+            if not eng.truth(wrap(inb)):
+                raise PyRaise(PyExc(IndexError, ("index out of bounds for table lookup",)))
+            return VArr(z3.simplify(self.fn(t)), self.dtype_name, k.space)
+        raise Unsupported("table indexing")
+
+
+class ParArr:
+    """np.array(list(d.keys()|d.values()), dtype=D) of a symbolic dict: keys and values arrays are parallel."""
+
+    def __init__(self, m, which, dtype):
+        self.m = m
+        self.which = which
+        self.dtype_name = dtype
+
+    @property
+    def dtype(self):
+        return DType(self.dtype_name)
+
+    def pyvc_max(self):
+        eng = cur()
+        m = self.m
+        q = z3.Int(f"pq!{eng.fresh_n + 1}")
+        eng.fresh_n += 1
+        val = (lambda t: _cast_term(t, "int64", self.dtype_name)) if self.which == "keys" else (lambda t: _cast_term(z3.Select(m.val, t), "int64", self.dtype_name))
+        if not eng.truth(wrap(z3.Exists([q], z3.Select(m.dom, q)))):
+            raise PyRaise(PyExc(ValueError, ("max() arg is an empty sequence",)))
+        mx, w = eng.fresh("pmax", I_), eng.fresh("pmax_w", I_)
+        eng.assume(z3.And(z3.Select(m.dom, w), val(w) == mx, z3.ForAll([q], z3.Implies(z3.Select(m.dom, q), val(q) <= mx))), why="max of array")
+        return wrap(mx, True, self.dtype_name)
 
 
 class VSel:
@@ -675,7 +789,10 @@ def _apply(f, ta, da, tb, db, rd, opname):
         tb = z3.ToReal(tb) if z3.is_int(tb) else tb
         return f(ta, tb)
     # operands are converted to the result dtype, then combined modulo its width
-    return wrap_mod(f(_cast_term(ta, da, rd), _cast_term(tb, db, rd)), rd)
+    ca, cb = _cast_term(ta, da, rd), _cast_term(tb, db, rd)
+    if _fits(f, ca, da if ca is ta else rd, cb, db if cb is tb else rd, rd):
+        return f(ca, cb)
+    return wrap_mod(f(ca, cb), rd)
 
 
 def base_array(eng, name, dtype, space, owner="caller", binary=False):
@@ -824,6 +941,62 @@ class NpModule:
         if k:
             raise Unsupported("np.unique with options")
         return np_unique(self.eng, v)
+
+    def array(self, v, dtype=None, **k):
+        from .builtins_model import MapView
+        if isinstance(v, VArr):
+            return v.astype(dtype) if dtype is not None else v.copy()
+        dt = _dtype_name(dtype) if dtype is not None else None
+        if isinstance(v, SymSet) and getattr(v, "of_map", None) is not None and dt:
+            return ParArr(v.of_map[0], v.of_map[1], dt)
+        if isinstance(v, MapView) and dt and v.kind in ("keys", "values"):
+            return ParArr(v.m, v.kind, dt)
+        raise Unsupported(f"np.array of {type(v).__name__}")
+
+    def arange(self, n, dtype=None):
+        dt = _dtype_name(dtype) if dtype is not None else "int64"
+        nt = to_term(n)
+        if z3.is_real(nt):
+            nt = z3.ToInt(nt)
+        return TArr(nt, (lambda t, dt=dt: _cast_term(t, "int64", dt)), dt)
+
+    def min_scalar_type(self, v):
+        eng = self.eng
+        vv = wrap(to_term(v) if not z3.is_real(to_term(v)) else z3.ToInt(to_term(v)))
+        if eng.truth(vv < 0):
+            for dt in _IORD:
+                if eng.truth(vv >= dtype_range(dt)[0]):
+                    return DType(dt)
+            return DType("float64")
+        for dt in _UORD:
+            if eng.truth(vv <= dtype_range(dt)[1]):
+                return DType(dt)
+        return DType("float64")
+
+    def promote_types(self, a, b):
+        return DType(_array_array_dtype(_dtype_name(a), _dtype_name(b)))
+
+    def result_type(self, a, b):
+        return DType(_array_array_dtype(_dtype_name(a), _dtype_name(b)))
+
+    def iinfo(self, d):
+        r = dtype_range(_dtype_name(d))
+        return type("iinfo", (), {"min": r[0], "max": r[1]})()
+
+    def ones_like(self, a, dtype=None):
+        if not isinstance(a, VArr):
+            raise Unsupported("ones_like of non-array")
+        dt = _dtype_name(dtype) if dtype is not None else a.dtype_name
+        one = z3.BoolVal(True) if dt == "bool" else (z3.RealVal(1) if dt.startswith("float") else z3.IntVal(1))
+        return VArr(one, dt, a.space)
+
+    def zeros_like(self, a, dtype=None):
+        dt = _dtype_name(dtype) if dtype is not None else a.dtype_name
+        zero = z3.BoolVal(False) if dt == "bool" else (z3.RealVal(0) if dt.startswith("float") else z3.IntVal(0))
+        return VArr(zero, dt, a.space)
+
+    def logical_not(self, a):
+        return a.logical_not()
 
     def ones(self, shape, dtype=None):
         sp = Space(ndim=len(shape) if isinstance(shape, tuple) else 1)
